@@ -396,6 +396,8 @@ def exec_step(rig, label, succ, tag, ctlname, tamper=None, env=None):
             inst.ctl[1] = ctlname
             ret = c.sendcontrol(ctlname)
         elif name == 'SendEof':
+            if rig.transport == 'popen':
+                rig.drop_raw()              # the harness' own handle on the child's stdin
             ret = c.sendeof()
         elif name == 'SendIntr':
             ret = c.sendintr()
